@@ -232,6 +232,13 @@ def classify(H, A, version, side):
     return "illegal", k
 
 
+def hs_len(trace, version):
+    """Number of leading trace entries that belong to the handshake proper
+    (everything up to and including this side's Finished)."""
+    idx = [k for k, (ct, ht, d) in enumerate(trace) if ht == 20]
+    return (idx[0] + 1) if idx else len(trace)
+
+
 def check(case):
     if case["k"] == "reneg":
         return check_reneg(case)
@@ -257,6 +264,9 @@ def check(case):
         if state["held"] is not None:
             out = out + [state["held"]]
             state["held"] = None
+        if state.get("rest") is not None and i > state["rest_at"]:
+            out = [state["rest"]] + out
+            state["rest"] = None
         for d in plan.get(i, ()):
             k = d[0]
             if k == "skip":
@@ -280,6 +290,37 @@ def check(case):
                        for x in out]
                 if version == (3, 4) and data[0] in (2, 20, 24):
                     state["keychange_coalesced"] = data[0]
+            elif k == "coalesce_part":
+                # as above, but only the first bytes of the further message
+                # share the record; the rest follows in a record of its own
+                # (under the next keys)
+                m = pool_msg(d[2], log["c"], log["s"], version)
+                if m is None or m[0] != 22 or ct != 22 or \
+                        (ct, data) not in out or version != (3, 4) or \
+                        data[0] not in (2, 20, 24):
+                    continue
+                n = 1 + d[3] % 3
+                out = [(22, data + m[1][:n]) if x == (ct, data) else x
+                       for x in out]
+                # (the rest goes out with / in front of the next thing this
+                # side sends: under the keys that follow the change)
+                state["rest"] = (22, m[1][n:])
+                state["rest_at"] = i
+                state["keychange_coalesced"] = data[0]
+            elif k == "frag":
+                # a stray handshake fragment (the first bytes of the message
+                # once more, in a record of their own) in front of the
+                # message: the byte stream is no longer a sequence of
+                # handshake messages in a legal order
+                if ct != 22 or (ct, data) not in out or len(data) < 4:
+                    continue
+                n = 1 + d[2] % 3
+                # d[2] >= 3: on the wire only (an endpoint whose transcript
+                # does not cover the stray bytes, or an on-path insertion
+                # before protection starts)
+                out = [(22, data[:n], "wire") if d[2] >= 3
+                       else (22, data[:n])] + out
+                state["stray_fragment"] = i
             elif k in ("insert", "replace"):
                 m = pool_msg(d[2], log["c"], log["s"], version)
                 if m is None:
@@ -302,6 +343,14 @@ def check(case):
     if p.both_ok:
         sc.do_write(p, "s", b"x")
         _, post_read = sc.read_all(p, "c")
+        if state.get("rest") is not None:
+            dev = holder["dev"]
+            drive({side: dev._orig_send(RawMsg(*state["rest"]))}, p.link,
+                  on_stall="leave")
+            state["rest"] = None
+            if side == "s" and post_read is not None and \
+                    post_read.state != "exc":
+                post_read = None
         for d in devs:
             if d[0] != "append":
                 continue
@@ -361,6 +410,35 @@ def check(case):
             "handshake bytes following a key-changing message in the same "
             "record were processed (victim state %r); case=%r" % (o, case),
             labels=labels)
+    if state.get("stray_fragment") is not None:
+        labels.append("model=stray-fragment")
+        in_hs = state["stray_fragment"] < hs_len(trace, version)
+        labels.append("victim=" + (describe_exc(vout.exc) if vout.exc
+                                   else vout.state))
+        if vout.state == "exc" and not isinstance(
+                vout.exc, (BaseTLSException, OSError)):
+            return bad("unrelated-exception:%s@%s" % (
+                type(vout.exc).__name__, exc_site(vout.exc)), repr(case),
+                labels=labels)
+        o = vout
+        if vout.ok and not in_hs:
+            # (in front of a post-handshake message: noticed by the read
+            # that meets it)
+            o = post_read if (vic == "c" and post_read is not None) \
+                else sc.do_read(p, vic, 100, 1)
+        if o.state == "exc" and not isinstance(
+                o.exc, (BaseTLSException, OSError)):
+            return bad("unrelated-exception:%s@%s" % (
+                type(o.exc).__name__, exc_site(o.exc)), repr(case),
+                labels=labels)
+        if o.state == "done":
+            return bad("completes-despite-stray-fragment:%s:victim=%s" % (
+                "tls13" if version == (3, 4) else "tls12-", vic),
+                "a handshake record holding the first bytes of a message "
+                "was inserted in front of that message; the handshake "
+                "completed and the next read returned %r; case=%r" % (
+                    o, case), labels=labels)
+        return good(labels=labels)
     labels.append("model=" + verdict)
     labels.append("victim=" + (describe_exc(vout.exc) if vout.exc
                                else vout.state))
@@ -385,7 +463,7 @@ def check(case):
                 "a mandatory message was replaced by an alert and the "
                 "victim completed; case=%r" % (case,), labels=labels)
         return good(labels=labels + ["no-completion"])
-    sig_dev = "+".join("%s%s" % (d[0], (":" + d[2]) if len(d) > 2 else "")
+    sig_dev = "+".join("%s%s" % (d[0], (":" + str(d[2])) if len(d) > 2 else "")
                        for d in devs)
     where = "%s:%s:%s" % ("tls13" if version == (3, 4) else "tls12-",
                           "victim=" + vic, sig_dev)
@@ -550,7 +628,10 @@ def dev_strategy():
         st.tuples(st.just("append"), st.just(0), t),
         st.tuples(st.just("coalesce"), i, st.sampled_from(
             ["key_update", "finished_bad", "nst13", "hello_request",
-             "cert_request13"]))).map(list)
+             "cert_request13"])),
+        st.tuples(st.just("coalesce_part"), i, st.sampled_from(
+            ["key_update", "nst13", "cert_request13"]), st.integers(0, 2)),
+        st.tuples(st.just("frag"), i, st.integers(0, 5))).map(list)
 
 
 @st.composite
@@ -600,6 +681,13 @@ def explicit(tier, seed):
                     for t in ("key_update", "nst13", "finished_bad"):
                         yield {"k": "dev", "fl": fl, "side": side,
                                "devs": [["coalesce", i, t]]}
+                    for t in ("key_update", "nst13"):
+                        yield {"k": "dev", "fl": fl, "side": side,
+                               "devs": [["coalesce_part", i, t, i % 3]]}
+                yield {"k": "dev", "fl": fl, "side": side,
+                       "devs": [["frag", i, i % 3]]}
+                yield {"k": "dev", "fl": fl, "side": side,
+                       "devs": [["frag", i, 3 + (i + 1) % 3]]}
             for t in POOL:
                 yield {"k": "dev", "fl": fl, "side": side,
                        "devs": [["append", 0, t]]}
